@@ -30,6 +30,9 @@ Verif.Model.WmptOps; `abs` = the spec tree of an in-memory node):
                    at every point `Weight()` = sum of the live weights of the spec trie of the history, `Root()` = its hash, and
                    `GetBlockProof(b)` names, for every block, the key whose cumulative-weight interval contains b;
   C09_root_through_storage: and `Root()` = hash of the independent canonical construction from the live set
+  C09_through_storage_gc / C09_through_storage_reload: the same three conclusions for histories with DeleteNodes passes in
+                   any position, and with reloads (reopen from the last committed root and weight) in any position — under the
+                   hypotheses of the C11 theorems (`Distinct`: the complement of finding C11-F2)
 
 Fixed-width arithmetic. The model computes weights over unbounded naturals / integers; the Go code uses `uint64`
 weights and an `int64` delta, which wrap modulo 2^64. Model/WmptU64.lean has the wrap-around copies `insertU` /
@@ -55,6 +58,7 @@ import Verif.Lemmas.WmptModelRun
 import Verif.Lemmas.WmptHistoryInv
 import Verif.Lemmas.WmptHistorySpec
 import Verif.Lemmas.WmptU64
+import Verif.Lemmas.WmptReload
 namespace Verif.Props.C09
 open Verif.Wmpt
 
@@ -205,6 +209,50 @@ theorem C09_through_storage (H : Bytes → Bytes) (hlen : ∀ x, (H x).length = 
     obtain ⟨k, v, key, ho, _, hk, _, hbp⟩ :=
       blockProof_rep' hlen (hrun H ops).t (specRun ops) 64 b hi.hasDb hi.rep hi.proper hi.upDirty hi.uniform
         (by decide) (by decide) (hok ops [] (by simp)) hb1 hb
+    rw [owner_eq_ownerSpec _ b hb1 hb] at ho
+    exact ⟨k, v, key, _, ho, hk, hbp⟩
+
+/-- The same with `DeleteNodes` passes in ANY position of the history (also while changes are uncommitted), under the
+    hypothesis of C11's GC theorems (`hok`: sizes below 2^64 and no two node occurrences with equal hash in any
+    intermediate content): at every point weight, root and the owner of every block follow the content. -/
+theorem C09_through_storage_gc (H : Bytes → Bytes) (hlen : ∀ x, (H x).length = 32) (ops : List HOp)
+    (hall : ∀ op ∈ ops, op.plainGC ∧ op.wf)
+    (hok : ∀ p q, ops = p ++ q → RepOps.PTOK (specRun p) ∧ Distinct H (specRun p)) :
+    (hrun H ops).t.weight = entriesWeight (specRun ops).entries ∧
+    (rootHash H (hrun H ops).t).2 = PT.hash H (specRun ops) ∧
+    ∀ b, 1 ≤ b → b ≤ (specRun ops).weight →
+      ∃ k v key proof, ownerSpec (specRun ops).entries b = some (k, v) ∧ RepMore.keybytesToHex key = k ∧
+        (blockProof H (hrun H ops).t b).2 = .ok (key, proof) := by
+  have hi := (ginv_run hlen ops hall hok).hinv
+  refine ⟨?_, (rep_rootHash _ hi.rep hi.proper hi.notNil).2, ?_⟩
+  · rw [← weight_eq_entriesWeight]
+    exact hi.rep.weight
+  · intro b hb1 hb
+    obtain ⟨k, v, key, ho, _, hk, _, hbp⟩ :=
+      blockProof_rep' hlen (hrun H ops).t (specRun ops) 64 b hi.hasDb hi.rep hi.proper hi.upDirty hi.uniform
+        (by decide) (by decide) (hok ops [] (by simp)).1 hb1 hb
+    rw [owner_eq_ownerSpec _ b hb1 hb] at ho
+    exact ⟨k, v, key, _, ho, hk, hbp⟩
+
+/-- …and with RELOADS in any position (the trie reopened from the root hash and weight of the last commit; uncommitted
+    changes are dropped: `rspecRun` falls back to the committed content), GC passes included. -/
+theorem C09_through_storage_reload (H : Bytes → Bytes) (hlen : ∀ x, (H x).length = 32) (ops : List ROp)
+    (hall : ∀ op ∈ ops, op.ok)
+    (hok : ∀ p q, ops = p ++ q → RepOps.PTOK (rspecRun p).1 ∧ Distinct H (rspecRun p).1 ∧
+      ((rspecRun p).2.weight = 0 → (rspecRun p).2 = .none)) :
+    (rrun H ops).h.t.weight = entriesWeight (rspecRun ops).1.entries ∧
+    (rootHash H (rrun H ops).h.t).2 = PT.hash H (rspecRun ops).1 ∧
+    ∀ b, 1 ≤ b → b ≤ (rspecRun ops).1.weight →
+      ∃ k v key proof, ownerSpec (rspecRun ops).1.entries b = some (k, v) ∧ RepMore.keybytesToHex key = k ∧
+        (blockProof H (rrun H ops).h.t b).2 = .ok (key, proof) := by
+  have hi := (rinv_run hlen ops hall hok).ginv.hinv
+  refine ⟨?_, (rep_rootHash _ hi.rep hi.proper hi.notNil).2, ?_⟩
+  · rw [← weight_eq_entriesWeight]
+    exact hi.rep.weight
+  · intro b hb1 hb
+    obtain ⟨k, v, key, ho, _, hk, _, hbp⟩ :=
+      blockProof_rep' hlen (rrun H ops).h.t (rspecRun ops).1 64 b hi.hasDb hi.rep hi.proper hi.upDirty hi.uniform
+        (by decide) (by decide) (hok ops [] (by simp)).1 hb1 hb
     rw [owner_eq_ownerSpec _ b hb1 hb] at ho
     exact ⟨k, v, key, _, ho, hk, hbp⟩
 
